@@ -235,3 +235,40 @@ func genRecancel(r *prng.R, sc *tlive.Scenario) {
 		}
 	}
 }
+
+// genSparse: a burst larger than one worker can take (several workers exist and then go to
+// their idle sleep with nothing pending), then - well inside a LONG idle timeout - fewer near
+// futures than there are surplus workers. Every wake-up token must make its consumer re-arm
+// for the new head; a consumer that retires instead leaves the future to sleepers that wake
+// an idle timeout later.
+func genSparse(r *prng.R, sc *tlive.Scenario) {
+	sc.Family = "sparse"
+	sc.IdleUs = []int64{2000000, 3000000, 4000000, 0}[r.Intn(4)]
+	sc.WindUp, sc.Restart = false, false
+	sc.MaxW = r.Range(3, 10)
+	sc.NG = 1
+	rounds := r.Range(1, 2)
+	for k := 0; k < rounds; k++ {
+		n := sc.MaxW + r.Range(2, 30)
+		for i := 0; i < n; i++ {
+			a := tlive.Act{G: 0, Op: "call", Fut: sc.NFut, DUs: 0}
+			if i == 0 && k > 0 {
+				a.WaitUs = int64(r.Range(20, 60)) * 1000
+			}
+			sc.Acts = append(sc.Acts, a)
+			sc.NFut++
+		}
+		// the workers settle into their idle sleep
+		m := r.Range(1, 2)
+		for i := 0; i < m; i++ {
+			a := tlive.Act{G: 0, Op: "call", Fut: sc.NFut, DUs: int64(r.Range(5, 60)) * 1000}
+			if i == 0 {
+				a.WaitUs = int64(r.Range(5, 40)) * 1000
+			} else {
+				a.WaitUs = int64(r.Range(0, 15)) * 1000
+			}
+			sc.Acts = append(sc.Acts, a)
+			sc.NFut++
+		}
+	}
+}
